@@ -34,6 +34,7 @@ Q_Mints   == {L(0), L(3)}
 Q_Ids     == {"i1"}
 Q_SignerSets == {{}, {"u1"}, {"ALPHA"}, {"c1"}}
 Q_ActsFS  == {"deposit", "withdraw", "cheque", "candAdd", "candRemove", "setFee"}
+T_ActsFS  == Q_ActsFS \cup {"bind"}
 Q_ActsEm  == {"emit", "designate", "pay"}
 Q_SignerSetsEm == {{}, {"m0"}, {"m1"}, {"CMT"}}
 Q_AmountsEm == {L(7), L(53)}
@@ -56,7 +57,7 @@ S_Wholes  == {-1, 0, 1, 100, 8999, 9000, 9001}
 S_Mints   == {Z}
 S_Ids     == {"i1", "i2"}
 S_SignerSets == {{}, {"u1"}, {"u2"}, {"ALPHA"}, {"CMT"}, {"STORED"}, {"c1"}, {"c2"}, {"m0"}, {"m1"}, {"m2"}, {"X"}}
-S_Acts    == {"deposit", "withdraw", "cheque", "candAdd", "candRemove", "setFee", "alphaSame", "designate", "emit", "pay"}
+S_Acts    == {"deposit", "withdraw", "cheque", "candAdd", "candRemove", "setFee", "alphaSame", "designate", "emit", "pay", "bind"}
 
 InitWith(nt, sk, nc, ix, ug, cg, un, wf, cf) ==
   /\ notary = nt /\ dep = [skeys |-> sk, nc |-> nc, aidx |-> ix]
